@@ -52,8 +52,7 @@ type loopClient struct {
 	// summary mode: collect the net consumption at each return
 	retMin    int
 	retSeen   bool
-	entryPred ast.Expr     // optional: predicate the first rune satisfies (dispatch guard of the unique call site)
-	entryVar  types.Object // variable of entryPred
+	entryClass []bool // optional: the first runes the callers can enter this sub-scanner with (nil: unknown)
 	firstRune string
 }
 
@@ -114,7 +113,7 @@ func (c *loopClient) Return(e *Engine, st *State, ret *ast.ReturnStmt) {
 	}
 	n, _ := strconv.Atoi(v)
 	// a zero-consumption return that the call site's dispatch guard excludes is ignored
-	if n <= 0 && c.entryPred != nil && c.firstRune != "" && !c.entryFeasible(e, st) {
+	if n <= 0 && c.entryClass != nil && c.firstRune != "" && !c.entryFeasible(e, st) {
 		return
 	}
 	if !c.retSeen || n < c.retMin {
@@ -131,12 +130,10 @@ func (c *loopClient) entryFeasible(e *Engine, st *State) bool {
 			preds[name] = fd
 		}
 	}
-	for r := rune(0); r < 0x250; r++ {
-		// dispatch guard
-		if ok, known := evalRuneExpr(c.w.p, c.entryPred, c.entryVar, r); !known || !ok {
-			if known {
-				continue
-			}
+	for r := rune(0); r < runeLimit; r++ {
+		// what the callers know about the character they enter with
+		if int(r) < len(c.entryClass) && !c.entryClass[r] {
+			continue
 		}
 		// path facts about the first rune
 		if f != nil {
@@ -298,7 +295,7 @@ func (c *loopClient) SplitAssign(e *Engine, st *State, lhs, rhs []ast.Expr, _ as
 		if t := e.AssumeBool(st, id, true); t != nil {
 			out = append(out, t)
 		}
-		if first && c.entryPred != nil {
+		if first && c.entryClass != nil {
 			return out // the unique caller backs up over a rune it has just read: the first read succeeds
 		}
 		if f := e.AssumeBool(st, id, false); f != nil {
@@ -493,46 +490,9 @@ func ruleC12Loops(p *Program, r *Run) {
 			units = append(units, unit{pkg, fd})
 		}
 	}
-	// dispatch guards of the sub-scanners' unique call sites in Scan
-	scan := p.MustFunc(p.Parser, "Scan")
-	info := p.Parser.TypesInfo
-	entry := map[*types.Func]ast.Expr{}
-	var entryVar types.Object
-	ast.Inspect(scan.Body, func(n ast.Node) bool {
-		cc, ok := n.(*ast.CaseClause)
-		if !ok || len(cc.List) != 1 {
-			return true
-		}
-		// the clause must back up before calling the sub-scanner
-		backs := false
-		for _, s := range cc.Body {
-			ast.Inspect(s, func(m ast.Node) bool {
-				call, ok := m.(*ast.CallExpr)
-				if !ok {
-					return true
-				}
-				f := Callee(info, call)
-				if f == nil || cursorOf(f) != "scanner" {
-					return true
-				}
-				if fnName(f) == "prev" {
-					backs = true
-				} else if backs && fnName(f) != "next" {
-					entry[f] = cc.List[0]
-				}
-				return true
-			})
-		}
-		ast.Inspect(cc.List[0], func(m ast.Node) bool {
-			if id, ok := m.(*ast.Ident); ok {
-				if v, ok := objOf(info, id).(*types.Var); ok && entryVar == nil {
-					entryVar = v
-				}
-			}
-			return true
-		})
-		return true
-	})
+	// the characters Scan can enter each sub-scanner with (path facts at the calls, C09's class machinery), for the
+	// sub-scanners that are only entered after the character was given back
+	classes, backed := p.scanEntryClasses()
 	for round := 0; round < 4; round++ {
 		changed := false
 		for _, u := range units {
@@ -541,8 +501,8 @@ func ruleC12Loops(p *Program, r *Run) {
 				continue
 			}
 			c := &loopClient{w: w, pkg: u.pkg, fd: u.fd, fn: FuncName(u.pkg, u.fd), loops: map[ast.Stmt]int{}}
-			if g, ok := entry[fobj]; ok {
-				c.entryPred, c.entryVar = g, entryVar
+			if cursorOf(fobj) == "scanner" && backed[fnName(fobj)] && classes[fnName(fobj)] != nil {
+				c.entryClass = classes[fnName(fobj)]
 			}
 			e := NewEngine(p, u.pkg, u.fd, c)
 			e.quiet++ // summaries only
@@ -773,12 +733,81 @@ func ruleC12Cursor(p *Program, r *Run) {
 						})
 					}
 				}
-				r.Check(saved, "C12/cursor", key, p.Pos(as.Pos()), "restores a position saved earlier in the same production (never before the production's start)", "the cursor position is set to a value that was not saved from the cursor in this production")
+				if !saved && i < len(as.Rhs) {
+					// a saved position plus something known not to be negative, or the end of the tokens: decided on
+					// the path facts at the store
+					pc := &posStoreClient{at: as, idx: i, fd: fd}
+					pe := NewEngine(p, pkg, fd, pc)
+					pe.Run(nil)
+					saved = pc.seen > 0 && pc.bad == 0 && len(pe.Errs) == 0
+				}
+				r.Check(saved, "C12/cursor", key, p.Pos(as.Pos()), "restores a position saved earlier in the same production (never before the production's start), moves forward from it, or jumps to the end of the tokens", "the cursor position is set to a value that was not saved from the cursor in this production")
 			}
 			return true
 		})
 	}
 	r.Floor("C12/cursor", 25)
+}
+
+// posStoreClient decides one store `x.pos = rhs`: rhs is `saved + n` with saved := x.pos taken earlier in the
+// function and n known >= 0 on every path, or `len(x.tokens) + c` (the state after reading past the end).
+type posStoreClient struct {
+	BaseClient
+	at        *ast.AssignStmt
+	idx       int
+	fd        *ast.FuncDecl
+	seen, bad int
+}
+
+func (c *posStoreClient) PreAssign(e *Engine, st *State, lhs, rhs []ast.Expr, stmt ast.Stmt) *State {
+	if stmt != ast.Stmt(c.at) || !e.Reporting() || c.idx >= len(rhs) {
+		return nil
+	}
+	c.seen++
+	info := e.Info
+	isSaved := func(x ast.Expr) bool {
+		o := objOf(info, x)
+		if o == nil {
+			return false
+		}
+		found := false
+		ast.Inspect(c.fd.Body, func(m ast.Node) bool {
+			if d, ok := m.(*ast.AssignStmt); ok && len(d.Lhs) == 1 && len(d.Rhs) == 1 && objOf(info, d.Lhs[0]) == o && d.Pos() < c.at.Pos() {
+				if ff := selField(info, d.Rhs[0]); ff != nil && fldName(ff) == "pos" {
+					found = true
+				}
+			}
+			return true
+		})
+		return found && e.P.neverReassigned(o)
+	}
+	nonNeg := func(x ast.Expr) bool {
+		if v, ok := constInt(info, x); ok {
+			return v >= 0
+		}
+		f := e.FactOf(st, x)
+		return f != nil && f.Lo != nil && *f.Lo >= 0
+	}
+	ok := false
+	if b, isBin := ast.Unparen(rhs[c.idx]).(*ast.BinaryExpr); isBin && b.Op == token.ADD {
+		switch {
+		case isSaved(b.X) && nonNeg(b.Y), isSaved(b.Y) && nonNeg(b.X):
+			ok = true
+		default:
+			// len(x.tokens) + c
+			if call, isCall := ast.Unparen(b.X).(*ast.CallExpr); isCall && IsBuiltinCall(info, call, "len") && len(call.Args) == 1 {
+				if f := selField(info, call.Args[0]); f != nil && fldName(f) == "tokens" {
+					if v, isC := constInt(info, b.Y); isC && v >= 0 && v <= 1 {
+						ok = true
+					}
+				}
+			}
+		}
+	}
+	if !ok {
+		c.bad++
+	}
+	return nil
 }
 
 // ---- C12/recursion: every cycle of the call graph makes progress.
